@@ -83,8 +83,53 @@ Proof.
 Qed.
 End Every.
 
-(* every tag of the harness's table satisfies the hypothesis `okty` - in particular the sizes between one and two words *)
-Example every_tag_ok : forallb okty [0; 1; 2; 3; 4; 5; 6; 7; 8; 9; 10; 11; 12; 13; 14; 15; 16; 17] = true /\ okty 18 = false /\ okty (-1) = false.
+(* every tag of the harness's table satisfies the hypothesis `okty` - in particular the sizes between one and two words and the
+   two translation units' types of the same spelling (18..20 / 21..23) *)
+Example every_tag_ok : forallb okty [0; 1; 2; 3; 4; 5; 6; 7; 8; 9; 10; 11; 12; 13; 14; 15; 16; 17; 18; 19; 20; 21; 22; 23] = true /\ okty 24 = false /\ okty (-1) = false.
+Proof. vm_compute. repeat split; reflexivity. Qed.
+
+(* ---- types of the same spelling in two translation units (tags 18..20 and 21..23) ----
+   `twin ty` is the other unit's type of the same name: another type (another tag), of the same size here. *)
+Lemma twin_differs ty : 0 <= ty -> twin ty <> ty.
+Proof.
+  intros Hp. unfold twin.
+  destruct (18 <=? ty) eqn:A1, (ty <=? 20) eqn:A2, (21 <=? ty) eqn:B1, (ty <=? 23) eqn:B2; cbn [andb]; lia.
+Qed.
+Lemma twin_table : map twin [18; 19; 20; 21; 22; 23] = [21; 22; 23; 18; 19; 20] /\ map twin [0; 7; 9; 12; 17; 24; -1] = [-1; -1; -1; -1; -1; -1; -1]
+  /\ forallb (fun t => (size_of (twin t) =? size_of t) && Bool.eqb (stored_inplace (twin t)) (stored_inplace t)) [18; 19; 20; 21; 22; 23] = true.
+Proof. vm_compute. repeat split; reflexivity. Qed.
+
+(* After ANY history: a value of type T stored in holder i (typed constructor / typed operator=) is NOT accessible through the other
+   unit's type of the same name - value_cast yields null / bad_value_cast - and neither are its copies nor the other side of a swap.
+   (Instance of last_stored_every_type at ty' := twin ty; stated for every tag: where there is no twin, `twin ty` = -1 is no type at all.) *)
+Theorem same_name_other_unit_refused (H M : nat) (tys : list Z) ops i ty v (o : op) :
+  okh H i = true -> okty ty = true -> o = OAssignVal i ty v \/ o = OConsVal i ty v ->
+  let s := final H M tys (ops ++ [o]) in
+  fst (cast s (hslot i) (twin ty)) = None /\ snd (cast s (hslot i) (twin ty)) = s /\
+  fst (cast s (hslot i) ty) = Some (norm ty v) /\
+  (forall j c, okh H j = true -> j <> i ->
+     c = OAssign j i \/ c = OConsCopy j i \/ c = OSwap i j \/ c = OSwap j i ->
+     let s' := final H M tys ((ops ++ [o]) ++ [c]) in
+     fst (cast s' (hslot j) (twin ty)) = None /\ fst (cast s' (hslot j) ty) = Some (norm ty v)).
+Proof.
+  intros Hi Hty Ho s.
+  destruct (last_stored_every_type H M tys ops i ty v o Hi Hty Ho) as (_ & C1 & C2 & C3). fold s in C1, C2.
+  assert (Hp : 0 <= ty) by (unfold okty in Hty; apply andb_true_iff in Hty; destruct Hty as [T1 _]; apply Z.leb_le in T1; exact T1).
+  split; [apply C2, twin_differs, Hp|]. split; [exact (proj2 (proj2 (proj2 (typed_main H M tys (ops ++ [o]))) (hslot i) (twin ty)))|]. split; [exact C1|].
+  intros j c Hj Hne Hc s'. destruct (C3 j c Hj Hne Hc) as (_ & D1 & D2). fold s' in D1, D2.
+  split; [apply D2, twin_differs, Hp|exact D1].
+Qed.
+
+(* both directions on concrete histories: unit A's Setting (18) / Record (20) stored, copied, swapped, adopted, kept in the map - unit B's
+   type of the same name (21 / 23) is refused everywhere; and the other way round *)
+Example same_name_other_unit_instance :
+  let s := final 3 1 [23] [OAssignVal 0 18 42; OConsCopy 1 0; ONew 20 7; OAdopt 2 0; OSwap 0 2; OParse 0 9 1] in
+  err s = false /\
+  map (fun i => fst (cast s (hslot i) 18)) [0; 1; 2] = [None; Some 42; Some 42] /\
+  map (fun i => fst (cast s (hslot i) 21)) [0; 1; 2] = [None; None; None] /\
+  fst (cast s (hslot 0) 20) = Some 7 /\ fst (cast s (hslot 0) 23) = None /\
+  fst (cast s (mslot 3 0) 23) = Some 9 /\ fst (cast s (mslot 3 0) 20) = None /\
+  run_case [0; 1; 0; 1; 0; 21; 5; 12; 0; 18; 12; 0; 21] = [21; 5; 1; -1; 0; 0; 0; 0; 0;  0; 0;  21; 5; 1; -1; 0; 0; 0; 0; 0;  1; 5;  21; 5; 1; -1; 0; 0; 0; 0; 0;  0; 0; 0; 0; 0].
 Proof. vm_compute. repeat split; reflexivity. Qed.
 
 (* a 12-byte instrumented payload (tag 12): stored, copied, swapped with an in-place int, re-assigned from its copy; read back *)
